@@ -449,7 +449,7 @@ func (c *c11Ctx) descend() {
 		ru.Check(has, "schema:"+pth, "", "path exists from gojq.Query", "path "+pth+" does not exist in gojq's JSON schema any more")
 	}
 	for _, sp := range c11DescendSpecs() {
-		d := c.def(ru, c11QueryJQ, sp.name, sp.arity)
+		d := c.defRaw(ru, c11QueryJQ, sp.name, sp.arity)
 		if d == nil {
 			continue
 		}
@@ -1099,11 +1099,8 @@ func (c *c11Ctx) wrapSlurp(ru *fw.Rule, d *fw.JQDef, then *gojq.Query, slurpVar,
 // slurpTables returns the object literals given as `slurps:` anywhere in the bundled jq.
 func (c *c11Ctx) slurpTables() []*gojq.Query {
 	var out []*gojq.Query
-	for _, f := range c.jq.Files {
-		if !strings.HasPrefix(f.Rel, "pkg/interp/") {
-			continue
-		}
-		fw.WalkJQ(f.Query, func(n any) bool {
+	for _, d := range c.interpDefs() {
+		fw.WalkJQ(d.Def, func(n any) bool {
 			kv, ok := n.(*gojq.ObjectKeyVal)
 			if ok && kv.Key == "slurps" && kv.Val != nil {
 				v := c11Unparen(kv.Val)
@@ -1137,11 +1134,9 @@ func (c *c11Ctx) closed() {
 	}
 	var sites []site
 	writtenKeys := map[string]bool{}
-	for _, f := range c.jq.Files {
-		if !strings.HasPrefix(f.Rel, "pkg/interp/") {
-			continue
-		}
-		for _, fd := range f.Query.FuncDefs {
+	for _, d := range c.interpDefs() {
+		f, fd := d.File, d.Def
+		{
 			fw.WalkJQ(fd, func(n any) bool {
 				switch x := n.(type) {
 				case *gojq.ObjectKeyVal:
